@@ -230,39 +230,7 @@ def _r3(ctx, prods):
                 continue
             var = n.targets[0].id
             found += 1
-            # all uses of var between this binding and the next rebinding
-            uses = []
-            rebound = False
-            for x in walk_shallow(fi.node):
-                if isinstance(x, ast.Name) and x.id == var \
-                        and isinstance(x.ctx, ast.Load) \
-                        and x.lineno > n.lineno:
-                    uses.append(x)
-            later_bind = [x.lineno for x in walk_shallow(fi.node)
-                          if isinstance(x, ast.Name) and x.id == var
-                          and isinstance(x.ctx, ast.Store)
-                          and x.lineno > n.lineno]
-            cut = min(later_bind) if later_bind else 10 ** 9
-            bad = []
-            n_read = n_close = 0
-            for u in uses:
-                if u.lineno >= cut:
-                    continue
-                p = u._parent
-                if isinstance(p, ast.Attribute) and isinstance(
-                        p._parent, ast.Call) and p._parent.func is p:
-                    if p.attr == "read":
-                        n_read += 1
-                        # must be inside a Try body whose finalbody closes var
-                        if not _in_try_with_finally_close(p._parent, var):
-                            bad.append("read() at line %d not under "
-                                       "try/finally close" % u.lineno)
-                        continue
-                    if p.attr == "close":
-                        n_close += 1
-                        continue
-                bad.append("other use '%s' at line %d"
-                           % (src(p)[:40], u.lineno))
+            bad, n_read, n_close = _stream_uses(P, prods, fi, var, n.lineno)
             run.check(not bad and n_read >= 1 and n_close >= 1, "C19.R3",
                       fi.qualname, src(n),
                       "stream used only for read() under try/finally close; "
@@ -272,6 +240,85 @@ def _r3(ctx, prods):
     if not found:
         run.soft_error("anchor vanished: no urllib.request.urlopen call site "
                        "bound to a variable")
+
+
+def _stream_uses(P, prods, fi, var, after, depth=0):
+    """Uses of the stream variable `var` of `fi` after line `after` (up to
+    its next rebinding): read() under try/finally close or inside a `with`
+    on the stream (or contextlib.closing of it), close(), or handing it to a
+    private helper that takes ownership of that parameter -- whose uses are
+    then held to the same rule.  Returns (complaints, reads, closes)."""
+    uses = [x for x in walk_shallow(fi.node)
+            if isinstance(x, ast.Name) and x.id == var
+            and isinstance(x.ctx, ast.Load) and x.lineno > after]
+    later_bind = [x.lineno for x in walk_shallow(fi.node)
+                  if isinstance(x, ast.Name) and x.id == var
+                  and isinstance(x.ctx, ast.Store) and x.lineno > after]
+    cut = min(later_bind) if later_bind else 10 ** 9
+    bad = []
+    n_read = n_close = 0
+    for u in uses:
+        # (a use on the line of the rebinding is its right-hand side,
+        # evaluated before the store)
+        if u.lineno > cut:
+            continue
+        p = u._parent
+        if isinstance(p, ast.Attribute) and isinstance(
+                p._parent, ast.Call) and p._parent.func is p:
+            if p.attr == "read":
+                n_read += 1
+                if not (_in_try_with_finally_close(p._parent, var)
+                        or _in_with_on(p._parent, var)):
+                    bad.append("read() at line %d not under try/finally "
+                               "close" % u.lineno)
+                continue
+            if p.attr == "close":
+                n_close += 1
+                continue
+        # with var: / with contextlib.closing(var):
+        q = p
+        if isinstance(q, ast.Call) and src(q.func).endswith("closing") \
+                and len(q.args) == 1 and q.args[0] is u:
+            q = q._parent
+        if isinstance(q, ast.withitem):
+            n_close += 1
+            continue
+        # handed to a helper that takes ownership
+        if isinstance(p, ast.Call) and u in p.args and depth < 3:
+            i = p.args.index(u)
+            cs = P.resolve_call(fi, p)
+            if cs and all(c.kind == "repo" for c in cs) \
+                    and i in prods.consumed_args(fi, p):
+                okc = True
+                for c in cs:
+                    ps = list(c.fn.params)
+                    if c.fn.cls is not None and c.how in prods.BOUND and ps:
+                        ps = ps[1:]
+                    b2, r2, c2 = _stream_uses(P, prods, c.fn, ps[i], 0,
+                                              depth + 1)
+                    bad.extend("%s: %s" % (c.fn.name, x) for x in b2)
+                    n_read += r2
+                    n_close += c2
+                continue
+        bad.append("other use '%s' at line %d" % (src(p)[:40], u.lineno))
+    return bad, n_read, n_close
+
+
+def _in_with_on(node, var):
+    p = node
+    while p is not None:
+        parent = getattr(p, "_parent", None)
+        if isinstance(parent, ast.With) and p in parent.body:
+            for it in parent.items:
+                e = it.context_expr
+                if isinstance(e, ast.Name) and e.id == var:
+                    return True
+                if isinstance(e, ast.Call) and src(e.func).endswith(
+                        "closing") and len(e.args) == 1 and isinstance(
+                        e.args[0], ast.Name) and e.args[0].id == var:
+                    return True
+        p = parent
+    return False
 
 
 def _in_try_with_finally_close(node, var):
